@@ -17,6 +17,14 @@ Round 6: `contracts/c09_routing.py` -- the nested-archive rule is a suffix test 
 (a) the router functions meet the routing specification (C07's contracts, executed on the tree under check), (b) lemma over the two verified
 specifications: a selected base name is never routed to the archive reader (refuted on the unchanged tree: `.gz` / `.bz2` / `.xz` aliases and
 MIME-detected tar names -- recorded finding C09-nested-archive-aliases-are-dispatched, proposed_fixes/C09_3_nested_aliases.diff).
+
+Round 7 (deepening): VERIFIED on the real bodies instead of assumed / policy-only -- sevenzip `_mkdirs`, `SevenZipReader._extract_files_from_folder`,
+`SevenZipReader.extractall` (`writer_contracts`: every os.makedirs / open path is INSIDE the named directory for all member tables; callees through
+their verified contracts, `call-pre` obligations), archive `_is_supported_file_cached`, `_get_file_extractor_cached`, `_process_archive_entry`
+(no file-system call; the extractor is handed io.BytesIO(file_data)).  `contracts/c09_counts.py`: one-iteration step obligations on the 7z
+path-count pass and the work-list pass.  Assumed models added: os.path.dirname below the base, io.BytesIO, sum of ints, file.write; the os.makedirs
+clause is `mkdir_ok` (inside, or the parent of the private directory: nothing to create) -- TRUSTED, validated natively by `model_validation` (BOUNDED).
+Clauses over ghost lists are judged only in the callee's own verification (`ctx.at_call_site`), and a `requires` never rebinds the caller's ghost directory.
 """
 import os
 
